@@ -55,7 +55,13 @@ def work(desc: dict) -> Optional[dict]:
     import warnings
     warnings.filterwarnings('ignore')
     core.ensure_repo_on_path()
-    case = make_case(desc)
+    try:
+        case = make_case(desc)
+    except core.MachineryError:
+        raise
+    except Exception as exc:  # noqa -- (qupulse exceptions do not always survive pickling: a pool worker that raises one hangs the run)
+        raise core.MachineryError('case generator of family %s failed: %s: %s'
+                                  % (desc.get('label', desc['family']), type(exc).__name__, str(exc)[:300]))
     if case is None:
         return None
     rng = random.Random(desc['seed'] ^ 0x5bd1e995)
@@ -227,6 +233,10 @@ def judge(rec: dict, reply: dict, aspects) -> List[dict]:
     grid = rec['grid']
     v: List[dict] = []
     if spec['status'] == 'skipped':
+        # no denotation was asked for (huge counts): the implementation's own three durations still have to agree
+        if 'durations' in aspects and impl['status'] == 'ok' and not (impl['dur'] == impl['wfdur'] == impl['pieces']):
+            v.append({'clause': 'durations', 'what': 'Loop.duration %s, waveform duration %s (to_waveform), sum of played '
+                      'pieces %s disagree' % (impl['dur'], impl['wfdur'], impl['pieces'])})
         return v
     if impl['status'] == 'error':
         return v        # not accepted: nothing is instantiated (error classes are a correspondence matter)
